@@ -44,16 +44,9 @@ DRIVER = "DriverC09.lean"
 # krylov-batch-unequal-exhaustion is the recorded C15 / C14 defect (breakdownNotMasked, batch-member-breakdown) surfacing
 # through C09; it is only ever applied to a batch of the sub-stream early-batch-unequal whose columns, run one by one
 # through the same call, are ALL right (Engine.unequal_batch).
-# recorded findings (scalar-times-annotated, kron-pow-principal-branch, krylov-batch-unequal-exhaustion) come from
-# /verif/known_findings.json through common.known_clauses; only the not yet recorded clause is listed here
-PROVISIONAL_KNOWN = {
-    "krylov-zero-column":
-        "a Krylov member (LanczosUnary / ArnoldiUnary, cola/linalg/unary/unary.py _matmat; normalisation of the start vector in "
-        "cola/linalg/decompositions/{lanczos,arnoldi}.py) of a Kronecker product is handed a ZERO column -- produced by a singular structured co-member "
-        "(f(0) = 0 for positive powers) or by a vanishing slice of the reshaped operand (Kronecker._matmat) -- and returns NaN / raises LinAlgError where "
-        "f(A) @ 0 = 0 (same class as C07 krylov-blockdiag-zero-probe); witness: pow(Kronecker(Diagonal([0., 1.72]), SelfAdjoint(Dense([[1.6, -1.26], [-1.26, 0.99]]))), "
-        "10, Lanczos(max_iters=2, tol=1e-12)) @ x is NaN for every x",
-}
+# all findings of this check are recorded in /verif/known_findings.json (scalar-times-annotated, kron-pow-principal-branch,
+# krylov-batch-unequal-exhaustion, krylov-zero-column) and matched through common.known_clauses
+PROVISIONAL_KNOWN = {}
 
 EXPONENTS = [Fraction(-2), Fraction(-1), Fraction(-1, 2), Fraction(0), Fraction(1, 2), Fraction(1), Fraction(2), Fraction(3),
              Fraction(9), Fraction(10), Fraction(5, 2)]
@@ -2105,7 +2098,7 @@ def run(ctx):
         "`kron_branch_violated` (argument sums of member eigenvalues outside (-pi, pi], margin 1e-6; generated spectra keep 0.12 rad distance from the cut), "
         "Lean: C09_kron_pow_domain, C09_kron_pow_domain_witness, C09_kron_pow_counterexample",
         "labelled defect stream `defect-zero-column` (Kronecker products whose Krylov member receives a zero column): every failure must be NaN / LinAlgError AND "
-        "explained by the decidable predicate `krylov_zero_column` (simulation of Kronecker._matmat's member order) -> clause krylov-zero-column (PROVISIONAL_KNOWN)",
+        "explained by the decidable predicate `krylov_zero_column` (simulation of Kronecker._matmat's member order) -> recorded clause krylov-zero-column",
         "recorded findings come from known_findings.json (scalar-times-annotated, kron-pow-principal-branch, krylov-batch-unequal-exhaustion = C15 breakdownNotMasked / C14 batch-member-breakdown "
         "surfacing through C09), the latter applied only to a batch with unequal exhaustion steps whose columns are all right when the same call is run on them one by one"])
     print(json.dumps({"outcomes": cov["outcomes"], "distinct_nontrivial": cov["distinct_nontrivial"], "clauses": cov["distributions"]["clauses"],
